@@ -124,7 +124,8 @@ def dataset_spec(draw, naming=None, dense=None, raw=None, curated=None, features
                  min_nc=2, max_nc=10, max_nt=6, max_ns=40, shanks=None, nan=False,
                  merge_ready=False, raw_backends=('flat', 'flat', 'npy', 'cbin'),
                  full_feature_rows=None, int_templates=None, probe_labels=False, min_nt=2,
-                 big_nt=None, scales=None, footprints=False, raw_parent=False, symlinks=False):
+                 big_nt=None, scales=None, footprints=False, raw_parent=False, symlinks=False,
+                 row_vectors=False):
     ns = draw(st.integers(2, 12) | st.integers(2, max_ns))
     nt = draw(st.integers(min_nt, big_nt or max_nt))
     nc = draw(st.integers(min_nc, max_nc))
@@ -163,6 +164,12 @@ def dataset_spec(draw, naming=None, dense=None, raw=None, curated=None, features
     if draw(st.booleans()):
         spec['chmap'] = sorted(spec['chmap'])
     spec['chmap_dtype'] = draw(st.sampled_from(ID_DTYPES))
+    if row_vectors and draw(st.integers(0, 3)) == 0:
+        # per-channel vectors stored as (1, n) rows (the merger squeezes what it loads; the ALF
+        # exporter copies such files as they are, so this is not offered to C13 / C14 sources)
+        spec['row_vectors'] = draw(st.lists(st.sampled_from(
+            ['channel_map.npy', 'channel_shanks.npy', 'channel_probe.npy']), min_size=1,
+            max_size=3, unique=True))
     spec['pos'] = draw(positions(nc))
     # positions are stored as floats (integer storage makes the merger and the ALF exporter fail
     # on the unchanged tree: 'int_array += float', so integer files are not an accepted input)
@@ -217,6 +224,9 @@ def dataset_spec(draw, naming=None, dense=None, raw=None, curated=None, features
     if w and not merge_ready and draw(st.integers(0, 5)) == 0:
         spec['wm_int'] = draw(st.sampled_from(['int32', 'int64', 'int16']))
     spec['wmi_file'] = bool(w and draw(st.booleans()) and not merge_ready)
+    if spec['wmi_file']:
+        spec['wmi_approx'] = draw(st.booleans())
+        spec['wm_newer'] = draw(st.booleans())
     spec['sim'] = draw(_present)
     # features
     f = True if merge_ready else _opt(draw, features, _present)
@@ -303,6 +313,8 @@ def build(spec, dirpath, write_params=True):
     def save(name, arr, vec=False):
         fn = ALF_NAMES.get(name, name) if alf else name
         a = _col(arr, col2d) if vec else arr
+        if vec and name in (spec.get('row_vectors') or ()):
+            a = np.asarray(arr)[None, :]        # stored as a (1, n) row: squeezed on load
         np.save(d / fn, a)
         T.files[name] = fn
         return fn
@@ -430,7 +442,14 @@ def build(spec, dirpath, write_params=True):
         np.save(d / 'whitening_mat.npy', T.wm)
         if spec['wmi_file']:
             T.wmi_file = np.linalg.inv(T.wm) + 0.0
+            if spec.get('wmi_approx'):
+                # written by another program: equal to the inverse up to float32 rounding
+                T.wmi_file = T.wmi_file.astype(np.float32).astype(np.float64)
             np.save(d / 'whitening_mat_inv.npy', T.wmi_file)
+            if spec.get('wm_newer'):
+                # the matrix file carries a later modification time than its stored inverse
+                os.utime(d / 'whitening_mat_inv.npy', (1500000000, 1500000000))
+                os.utime(d / 'whitening_mat.npy', (1600000000, 1600000000))
         else:
             T.wmi_file = None
     else:
